@@ -694,17 +694,32 @@ def ident? : String → Option Nat
   | "g" => some 0 | "a" => some 1 | "b" => some 2
   | _ => none
 
-/-- `(m ID P1 RM)`, `(scope ITEM*)`, `(loop K ITEM*)` → the model's configuration (fuel: one unit per item). -/
+/-- The builder's entry points (`scope_`, `while_`, `if_`, `if_else_`) build the same components as the
+constructors (`Scope::new`, `Loop::new`, `Branch::new`, `Branch::new_with_else`). -/
+def itemHead : String → String
+  | "bscope" => "scope" | "bwhile" => "loop" | "bif" => "if" | "bifelse" => "ifelse"
+  | h => h
+
+def cond? : Sexp → Option Bool
+  | .atom "t" => some true | .atom "f" => some false
+  | _ => none
+
+/-- `(m ID P1 RM)`, `(scope ITEM*)`, `(loop K ITEM*)`, `(if C ITEM*)`, `(ifelse C (then ITEM*) (else ITEM*))` (and the
+builder-built `bscope` / `bwhile` / `bif` / `bifelse`) → the model's configuration (fuel: one unit per item). -/
 def parseItems (kind : PKind) : Nat → List Sexp → Option (Cfg Float)
   | 0, _ => none
   | _, [] => some .done
   | f + 1, .list [.atom "m", .atom id, p1, rm] :: rest => do
     let c : PComp Float := ⟨kind, ← ident? id, toParam (← float? p1), toParam (← float? rm)⟩
     pure (.leaf c (← parseItems kind f rest))
-  | f + 1, .list (.atom "scope" :: body) :: rest => do
-    pure (.scope (← parseItems kind f body) (← parseItems kind f rest))
-  | f + 1, .list (.atom "loop" :: k :: body) :: rest => do
-    pure (.loop (← nat? k) (← parseItems kind f body) (← parseItems kind f rest))
+  | f + 1, .list (.atom h :: args) :: rest =>
+    match itemHead h, args with
+    | "scope", body => do pure (.scope (← parseItems kind f body) (← parseItems kind f rest))
+    | "loop", k :: body => do pure (.loop (← nat? k) (← parseItems kind f body) (← parseItems kind f rest))
+    | "if", c :: body => do pure (.branch (← cond? c) (← parseItems kind f body) .done (← parseItems kind f rest))
+    | "ifelse", [c, .list (.atom "then" :: tb), .list (.atom "else" :: eb)] => do
+      pure (.branch (← cond? c) (← parseItems kind f tb) (← parseItems kind f eb) (← parseItems kind f rest))
+    | _, _ => none
   | _, _ => none
 
 /-- Bit-pattern equality of parameter values (NaN equals NaN). -/
